@@ -245,6 +245,12 @@ static void run_table(Json& js, vh::Rng& rng, int reps) {
                     };
                     SA(arr_real(), dR, mkR);
                     SA(arr_cmplx(), dC, mkC);
+                    // std::complex on either side, every operator (the dividend on the left, a divisor array on the right)
+                    {
+                        const std::complex<double> ls((double)s8C.re[0], (double)s8C.im[0]);
+                        ev_bin(js, "SA", op, dC, s8C, "std", [&](AV& r, AV& a2, AV&) { arr_cmplx x = mkC(dC); r = from(apply(op, ls, x)); a2 = from(x); });
+                        ev_bin(js, "AS", op, aC, sC, "std", [&](AV& r, AV& a2, AV&) { arr_cmplx x = mkC(aC); r = from(apply(op, x, ss)); a2 = from(x); });
+                    }
                     // compound with scalars
                     ev_bin(js, "CAS", op, aR, sR, "real", [&](AV& r, AV& a2, AV&) { arr_real x = mkR(aR); compound(op, x, sr); r = from(x); a2 = r; });
                     ev_bin(js, "CAS", op, aR, sR, "int", [&](AV& r, AV& a2, AV&) { arr_real x = mkR(aR); compound(op, x, si); r = from(x); a2 = r; });
@@ -378,6 +384,30 @@ static void run_table(Json& js, vh::Rng& rng, int reps) {
                     put(js, "a", all);
                     put(js, "r", from(z));
                     js.end();
+                }
+            }
+            // index lists with structure on a longer array: permuted runs (first and last count-1 apart), repeats, reversals
+            if (n == 3) {
+                const AV bigR = gen(rng, false, 9, false), bigC = gen(rng, true, 9, false);
+                static const std::vector<std::vector<int>> LISTS = {{1, 3, 2, 4}, {0, 0, 2}, {2, 5, 3, 4, 6}, {4, 3, 2, 1}, {0, 2, 1, 3, 5, 4, 6},
+                                                                    {8, 0}, {3, 3, 3}, {1, 2, 3, 4}, {7, 5, 6, 8}, {0, 8, 1, 7, 2}};
+                for (const auto& ii : LISTS) {
+                    const std::vector<long> ix(ii.begin(), ii.end());
+                    for (int c = 0; c < 2; ++c) {
+                        const AV& a = c ? bigC : bigR;
+                        AV r2, r3;
+                        const char* o2 = vh::outcome([&] {
+                            r2 = c ? from(mkC(a)[ii]) : from(mkR(a)[ii]);
+                            r3 = c ? from(mkC(a)[arr_int(ii)]) : from(mkR(a)[arr_int(ii)]);
+                        });
+                        for (const AV* r : {&r2, &r3}) {
+                            js.begin("Select").str("kind", "idx");
+                            put(js, "a", a);
+                            js.arr("sel", ix).str("o", o2);
+                            put(js, "r", *r);
+                            js.end();
+                        }
+                    }
                 }
             }
             // selections
